@@ -56,7 +56,7 @@ func metadataDump(rm *protocol.ResolutionModel) string {
 }
 
 func checkC02(c *hx.Ctx) {
-	c.Rule("operation sets with competing operations: 2-3 valid updates / recovers consuming the same commitment with different successors, several creates, replayed operations and unpublished competitors; pairwise distinct (time, number) pairs drawn so that time order and number order disagree; the store returns the published operations in every permutation (n<=6) or in 24 random permutations plus sorted and reversed; oracle: identical resolution result and identical document metadata (both operation lists) for every order, equal to the reference model (earliest (time, number) wins, published before unpublished); plus competitions that straddle a protocol upgrade (version 0 allows sha2-256 only, version 100 sha2-512 and sha2-256): each competitor is judged by the rules of the version it was anchored under, the earliest applicable one wins; competitors anchored in transactions of their own (real batch files) reaching two nodes through the REAL observer, grouped differently into notifications with unreadable transactions in between: both resolve like the model; non-trivial = the set contains at least one fork or duplicate create")
+	c.Rule("operation sets with competing operations: 2-3 valid updates / recovers consuming the same commitment with different successors, several creates (the duplicate create of half of the DIDs carries a delta larger than the delta limit), replayed operations and unpublished competitors; pairwise distinct (time, number) pairs drawn so that time order and number order disagree; the store returns the published operations in every permutation (n<=6) or in 24 random permutations plus sorted and reversed; oracle: identical resolution result and identical document metadata (both operation lists) for every order, equal to the reference model (earliest (time, number) wins, published before unpublished); plus competitions that straddle a protocol upgrade (version 0 allows sha2-256 only, version 100 sha2-512 and sha2-256): each competitor is judged by the rules of the version it was anchored under, the earliest applicable one wins; competitors anchored in transactions of their own (real batch files) reaching two nodes through the REAL observer, grouped differently into notifications with unreadable transactions in between: both resolve like the model; non-trivial = the set contains at least one fork or duplicate create")
 	nCases := c.N(1200, 25000)
 	root := c.Rng("cases")
 	seeds := make([]uint64, nCases)
